@@ -295,7 +295,7 @@ def pExprs (f : Nat) : Nat → List Tok → Option (List Node)
 
 def parseToks (ts : List Tok) : Option (List Node) :=
   match ts with
-  | .lb :: r => pExprs (ts.length + 1) (ts.length + 1) r
+  | .lb :: r => pExprs (3 * ts.length + 3) (ts.length + 1) r
   | _ => none
 
 /-- text of a match part → the component trees, as `Matcher` holds them -/
